@@ -69,7 +69,7 @@ Definition dec (r : reader) (d : list N) : option (cimg * list N) :=
     end
   else
     if (nh =? 0) || (nl =? 0) || (MAX_LONGS <? nl) then None else
-    if Nat.ltb len (32 + body_bytes nl) then None else
+    if N.of_nat len <? 32 + 8 * nl then None else     (* compared in N: the announced length may be huge *)
     Some (mkC nh seed nl (Some (rd d 24 8, rd d 32 (body_bytes nl))), skipn (32 + body_bytes nl) d).
 
 (* what a filter restored from content [s] writes when it is serialized again: is_empty() = !dirty && count == 0 *)
